@@ -152,6 +152,9 @@ type VC struct {
 	localCells [][2]string    // (component, ref) of the local variables' own cells
 	localTypes map[string]types.Type // every source-level local of the function under verification (from DebugRefs)
 	matchedSites map[*CallSiteSpec]bool // `at call` clauses that applied to some call (vacuity guard)
+	replayParams  []Val  // entry values of the parameters (receiver first), for counterexample replay
+	replayResults []Val  // results merged over all returns
+	replayExit    *State // merged exit state (post-heap of slice parameters)
 }
 
 func newVC(eng *Engine, fn *ssa.Function, spec *FuncSpec) *VC {
